@@ -62,7 +62,7 @@ impl Engine for C08 {
             }
             C08Plan::Compress(jobs) => {
                 stats.inc("half.compressor");
-                Ok(exec_jobs("C08", jobs, stats, log, true))
+                Ok(exec_jobs("C08", jobs, None, stats, log, true))
             }
         }
     }
